@@ -239,3 +239,68 @@ Fixpoint pexec (legacy : bool) (s : state) (ops : list pop) : outcome state :=
   | [] => Val s
   | o :: rest => do r <- pstep legacy s o; pexec legacy (fst r) rest
   end.
+
+(* ---------------------------------------------------------------- two threads
+   A public call is split at the point where its thread can be pre-empted:
+     CRead  = the platform read  rawdict = _psplatform.xxx_io_counters()
+     CWrap  = the rest of the call (wrap step under _wn.lock, presentation, return)
+   [raw] of CRead is what the kernel shows at the instant of the read.
+   Each of the two threads (tid : bool) has at most one call in flight. *)
+Inductive cstep :=
+| CRead (tid : bool) (f : fn) (per nowrap : bool) (raw : dict)
+| CWrap (tid : bool)
+| CClear (tid : bool) (f : fn).
+
+Definition slots (A : Type) := (option A * option A)%type.     (* thread false, thread true *)
+Definition pget {A} (p : slots A) (tid : bool) : option A := if tid then snd p else fst p.
+Definition pset {A} (p : slots A) (tid : bool) (v : option A) : slots A :=
+  if tid then (fst p, v) else (v, snd p).
+
+(* one step; the answer (if the step returns one to a caller) is tagged with the thread *)
+Definition cstep_run (s : state) (p : slots pop) (c : cstep)
+  : outcome ((state * slots pop) * option (bool * pobs)) :=
+  match c with
+  | CRead tid f per nowrap raw =>
+    match pget p tid with
+    | Some _ => OutOfModel                       (* the thread is inside a call *)
+    | None => Val ((s, pset p tid (Some (PCall f per nowrap raw))), None)
+    end
+  | CWrap tid =>
+    match pget p tid with
+    | None => OutOfModel
+    | Some call => do r <- pstep false s call; Val ((fst r, pset p tid None), Some (tid, snd r))
+    end
+  | CClear tid f =>
+    match pget p tid with
+    | Some _ => OutOfModel
+    | None => do r <- pstep false s (PClear f); Val ((fst r, p), Some (tid, snd r))
+    end
+  end.
+
+Fixpoint ctrace (s : state) (p : slots pop) (sched : list cstep) : list (outcome (bool * pobs)) :=
+  match sched with
+  | [] => []
+  | c :: rest =>
+    match cstep_run s p c with
+    | Val (sp, Some a) => Val a :: ctrace (fst sp) (snd sp) rest
+    | Val (sp, None) => ctrace (fst sp) (snd sp) rest
+    | Exc e => [Exc e]
+    | OutOfModel => [OutOfModel]
+    end
+  end.
+
+(* Lock discipline of notes/fixes/C10-read-under-lock.diff: a nowrap=True call holds
+   _nowrap_lock from its platform read to the end of its wrap step, so no other
+   nowrap=True read can happen in between.  [lock_ok] = the schedule is possible
+   under that lock.  Without the lock every well-formed schedule is possible. *)
+Definition is_nowrap (o : option pop) : bool :=
+  match o with Some (PCall _ _ true _) => true | _ => false end.
+Definition lock_free (p : slots pop) : bool := negb (is_nowrap (fst p)) && negb (is_nowrap (snd p)).
+Fixpoint lock_ok (p : slots pop) (sched : list cstep) : bool :=
+  match sched with
+  | [] => true
+  | CRead tid f per nowrap raw :: rest =>
+    (negb nowrap || lock_free p) && lock_ok (pset p tid (Some (PCall f per nowrap raw))) rest
+  | CWrap tid :: rest => lock_ok (pset p tid None) rest
+  | CClear _ _ :: rest => lock_ok p rest
+  end.
